@@ -176,7 +176,7 @@ def build_mc(ctx, names, metas_abs):
     dmg = [('none', 0, '-'), ('prefix', 0, '-'), ('swapheads', 0, '-')]
     dmg += [('size', 0, x) for x in ['empty', 'short', 'pagem1', 'odd', 'more']]
     dmg += [('hdrlen', 0, x) for x in ['zero', 'five', 'thirtyone', 'plus1', 'plus32', 'minus32', 'page', 'pageplus', 'size', 'huge']]
-    dmg += [('limit', 0, x) for x in ['zero', 'intable', 'low', 'odd', 'beyond', 'huge', 'reserved']]
+    dmg += [('limit', 0, x) for x in ['zero', 'intable', 'low', 'odd', 'beyond', 'huge', 'reserved', 'exact']]
     dmg += [('next', i, x) for i in (1, 2, 3) for x in targets]
     dmg += [('head', i, x) for i in (1, 2) for x in targets]
     dmg += [('nlen', i, x) for i in (1, 2) for x in ['zero', 'over', 'beyond', 'max24', 'tofileend', 'tofileend1']]
@@ -292,6 +292,48 @@ def report(ctx, o, verdict, cls, origin):
                   '%s (input class %s; %s #%s, %s): %s' % (text, cls, origin, o.get('i'), o.get('src'), json.dumps(brief)[:600]))
 
 
+def reads_phase(ctx):
+    """Process lifetime: successive uploaders of one process read a count file that is changed in place
+    between the reads.  TLC checks the small state machine exhaustively and produces walks; every read of
+    the real uploader must return a version the specification allows."""
+    ctx.inject('internal/upload')
+    r = ctx.tlc('FileFormatReads', label='FileFormatReads-bfs')
+    if not r.ok:
+        raise Infra('FileFormatReads: the specification itself violates %s %s' % (r.error, r.error_name))
+    depth = ctx.pick(10, 14)
+    cfg = ('SPECIFICATION Spec\nCHECK_DEADLOCK FALSE\nCONSTANTS\n NReaders = 3\n Kinds = {"inc", "new", "grow"}\n MaxOps = %d\n' % depth)
+    r = ctx.tlc('FileFormatReads', cfg_text=cfg, simulate={'num': ctx.pick(60, 600), 'file': True}, depth=depth + 1,
+                label='FileFormatReads-sim', count=False)
+    if r.error:
+        raise Infra('FileFormatReads simulate: %s' % r.error)
+    behs = []
+    for i, fn in enumerate(ctx.sim_files(r)):
+        steps = []
+        for (_a, _args, st) in tlaval.read_simulate(fn):
+            last = st['last']
+            steps.append({'op': last['op'], 'kind': last['kind'], 'r': last['r'], 'how': last['how'], 'allowed': sorted(last['allowed']),
+                          'ver': st['ver'], 'pages': st['pages']})
+        if len(steps) > 1:
+            behs.append({'id': i, 'steps': steps})
+    recs, rc, out = ctx.run_harness('./internal/upload', 'TestVerifC06Reads', inp={'behaviours': behs}, timeout=1200)
+    summ = [x for x in recs if x.get('kind') == 'summary']
+    if not summ:
+        raise Infra('C06 reads harness wrote no summary:\n' + out[-2000:])
+    for x in recs:
+        if x.get('kind') == 'infra':
+            raise Infra('C06 reads: %s' % json.dumps(x))
+    ctx.cov['read_behaviours'] = summ[0]['behaviours']
+    ctx.cov['reads_replayed'] = summ[0]['reads']
+    ctx.cov['evaluations'] += summ[0]['reads']
+    ctx.cov['traces_validated_against_impl'] += summ[0]['matched']
+    ctx.sample({'kind': 'read-behaviour', 'ops': [(s['op'], s['kind'], s['r'], s['how'], s['allowed']) for s in behs[0]['steps'][:10]]})
+    for m in [x for x in recs if x.get('kind') == 'mismatch']:
+        ctx.violation('C06:reads:%s' % m['what'], m,
+                      'behaviour %s step %s: uploader %s of the process read the count file and got %s (allowed versions %s, current %s): %s' % (
+                          m.get('id'), m.get('step'), m.get('r'),
+                          'version %s' % m.get('got_version') if m['what'] == 'stale' else m.get('err'), m.get('allowed'), m.get('current'), json.dumps(m)[:300]))
+
+
 def run(ctx):
     ctx.assumptions += [
         'well-formed = FileFormat!WellFormed (documented layout incl. header length = round32(32 + metadata length), metadata <= 512 bytes, '
@@ -302,6 +344,7 @@ def run(ctx):
         'a call that has not returned after 2 s counts as not terminating',
         'coverage-guided fuzzing is not used: inputs are random bytes, structured mutations of valid files and the TLC enumeration',
         'texts and 64-bit values are compared as opaque identifiers by TLC (equality only); bytes are produced and compared by the harness',
+        'an uploader may return what it parsed earlier for the same path (its documented memo); a NEW uploader of the same process must see the current content',
     ]
     ctx.inject('internal/counter', 'internal/verifh/c06')
     rnd = random.Random(ctx.seed)
@@ -425,6 +468,9 @@ def run(ctx):
         o = okwf[0]
         ctx.sample({'kind': 'observation', 'source': o['src'], 'records': len(o['f']['recs']), 'outcome': o['out']['kind'],
                     'counts': len(o['out']['counts']), 'meta_keys': len(o['out']['meta'])})
+    # ---- 3. the same path read several times in one process (FileFormatReads.tla) ----
+    reads_phase(ctx)
+
     ctx.cov['rule'] = ('vectors = every file FileFormatParse.tla enumerates (well-formed files over the name/metadata catalogues; damaged files = bases x '
                        'corruptions), concretized and fed to counter.Parse (and ReadFile); observations = random / mutated byte strings abstracted by an '
                        'independent walk and decided by TLC (verdict + corruption class per input)')
